@@ -51,6 +51,9 @@ import QV.Lemmas.PyFlag
 import QV.Props.C01
 import QV.Props.C02
 import QV.Props.C04
+import QV.Props.C05
+import QV.Props.C13
+import QV.Lemmas.Unbiased
 
 namespace QV.Props
 namespace C08
@@ -856,6 +859,280 @@ theorem C08_pure_rbm_pos {hid : ℕ} (am : RBM ℝ n hid) (c : ℕ) :
         ∑ σ, bornPure psi σ * val σ = (expectation psi (neighbourOpenOp c)).re) :=
   C08_pure_states _ (fun σ => (C08_rbm_psi_ne_zero am am σ).1) c
 
+
+
+/-! ### Composition with the sampler (C05) and the streaming statistics (C13): unbiased ON THE SAMPLES THE LIBRARY DRAWS
+
+The theorems above average `apply` over the EXACT distribution `p`.  The library never sees `p`: it draws samples with the
+block-Gibbs sampler of property C05 and averages with the streaming statistics of property C13.  This section composes the
+three: `p` (= `bornPure ψ` / `bornMixed`, = the distribution the state reports, normalised) is invariant under the `k`-step
+kernel of the MODEL sampler (`C05_invariant_k`), hence for a chain started from `p` the expectation — under
+`Prog.expect (gibbsSteps k ·)`, the law of the sampler the C05 driver replays — of ANY function of the state after `k` steps is
+its `p`-average (`C08_unbiased_stationary*`, clause 1), in particular `tr(ρ̂ O)` for the five observables; and the expectation of the
+MEAN that `ObservableBase.statistics` reports (`C13_statistics_one_pass` ∘ the threaded loop `Stats.drawsProg` over `T` draws of
+`B` independent chains with the schedule `[burn_in, steps, …]`) is `tr(ρ̂ O)` as well, whatever `burn_in`, `steps`, `num_samples`
+are (`C08_unbiased_statistics*`).
+NOT proved (and not claimed): convergence from an arbitrary start.  `sample`/`statistics` without `initial_state` start from
+fair coins (`C05_sample_start`), which is not `p`; that the `k`-step law then approaches `p` as `k → ∞` (ergodicity: the kernel
+is strictly positive, `C05_kernel_pos`) and at which rate is not formalised. -/
+section sampler
+open Prog Stats
+variable {hid a : ℕ}
+
+theorem born_cplx_eq (am ph : RBM ℝ n hid) (σ : Cfg n) :
+    bornPure (fun σ => Wave.psiCplx am ph (fun j => bit (σ j))) σ
+      = C05.rbmPi am 1 σ / ∑ τ, C05.rbmPi am 1 τ := by
+  have h : ∀ τ : Cfg n, C.normSq (Wave.psiCplx am ph (fun j => bit (τ j))) = C05.rbmPi am 1 τ := by
+    intro τ
+    have := C01_normSq_psi_complex am ph (fun j => bit (τ j))
+    simp only [pow_two] at this
+    exact this
+  simp only [bornPure, h]
+
+theorem born_pos_eq (am : RBM ℝ n hid) (σ : Cfg n) :
+    bornPure (fun σ => Wave.psiPos am (fun j => bit (σ j))) σ
+      = C05.rbmPi am 1 σ / ∑ τ, C05.rbmPi am 1 τ := by
+  have h : ∀ τ : Cfg n, C.normSq (Wave.psiPos am (fun j => bit (τ j))) = C05.rbmPi am 1 τ := by
+    intro τ
+    have := C01_normSq_psi_positive am (fun j => bit (τ j))
+    simp only [pow_two] at this
+    exact this
+  simp only [bornPure, h]
+
+theorem born_mixed_eq (am : PRBM ℝ n hid a) (σ : Cfg n) :
+    bornMixed (rbmProb am) σ = C05.prbmPi am 1 σ / ∑ τ, C05.prbmPi am 1 τ := rfl
+
+theorem rbmPi_pos (am : RBM ℝ n hid) (σ : Cfg n) : 0 < C05.rbmPi am 1 σ := by
+  simp only [C05.rbmPi, Wave.probability, transc_exp, div_one]; exact Real.exp_pos _
+
+theorem prbmPi_pos (am : PRBM ℝ n hid a) (σ : Cfg n) : 0 < C05.prbmPi am 1 σ := by
+  simp only [C05.prbmPi, Density.probability, transc_exp, div_one]; exact Real.exp_pos _
+
+theorem hat_sum_one (w : Cfg n → ℝ) (hw : ∀ σ, 0 < w σ) : ∑ σ, w σ / ∑ τ, w τ = 1 := by
+  rw [← Finset.sum_div]
+  exact div_self (Finset.sum_pos (fun σ _ => hw σ) Finset.univ_nonempty).ne'
+
+theorem hat_stationary (w : Cfg n → ℝ) (prog : Cfg n → Prog ℝ (Cfg n))
+    (h : ∀ x, ∑ v, w v * (prog v).law x = w x) (x : Cfg n) :
+    ∑ v, (w v / ∑ τ, w τ) * (prog v).law x = w x / ∑ τ, w τ := by
+  simp only [div_mul_eq_mul_div]
+  rw [← Finset.sum_div, h]
+
+/-- **the exact sampling distribution is stationary for the `k`-step sampler** (C05_invariant_k, in the normalised form the
+estimator theorems use), for the three state types; each is a probability distribution. -/
+theorem C08_born_stationary (am ph : RBM ℝ n hid) (q : PRBM ℝ n hid a) (k : ℕ) (w : Cfg n) :
+    (∑ v, bornPure (fun σ => Wave.psiCplx am ph (fun j => bit (σ j))) v * (am.gibbsSteps k v).law w
+        = bornPure (fun σ => Wave.psiCplx am ph (fun j => bit (σ j))) w)
+    ∧ (∑ v, bornPure (fun σ => Wave.psiPos am (fun j => bit (σ j))) v * (am.gibbsSteps k v).law w
+        = bornPure (fun σ => Wave.psiPos am (fun j => bit (σ j))) w)
+    ∧ (∑ v, bornMixed (rbmProb q) v * (q.gibbsSteps k v).law w = bornMixed (rbmProb q) w)
+    ∧ (∑ σ, bornPure (fun σ => Wave.psiCplx am ph (fun j => bit (σ j))) σ = 1)
+    ∧ (∑ σ, bornPure (fun σ => Wave.psiPos am (fun j => bit (σ j))) σ = 1)
+    ∧ (∑ σ, bornMixed (rbmProb q) σ = 1) := by
+  have h1 : ∀ x, ∑ v, C05.rbmPi am 1 v * (am.gibbsSteps k v).law x = C05.rbmPi am 1 x := fun x =>
+    (C05.C05_invariant_k_law am q 1 k x).1
+  have h2 : ∀ x, ∑ v, C05.prbmPi q 1 v * (q.gibbsSteps k v).law x = C05.prbmPi q 1 x := fun x =>
+    (C05.C05_invariant_k_law am q 1 k x).2
+  simp only [born_cplx_eq, born_pos_eq, born_mixed_eq]
+  exact ⟨hat_stationary _ _ h1 w, hat_stationary _ _ h1 w, hat_stationary _ _ h2 w,
+    hat_sum_one _ (rbmPi_pos am), hat_sum_one _ (rbmPi_pos am), hat_sum_one _ (prbmPi_pos q)⟩
+
+/-- **(a) unbiased on a stationary chain, complex wavefunction.**  Start state `v₀ ~ p = |ψ|²/Σ|ψ|²`, then `k` passes of the
+amplitude network's block-Gibbs sampler (what `sample`/`gibbs_steps` run): for EVERY `k` the expected value of ANY per-sample
+function of the resulting state is its exact `p`-average; for the five observables it is `⟨ψ|O|ψ⟩/⟨ψ|ψ⟩`. -/
+theorem C08_unbiased_stationary (am ph : RBM ℝ n hid) (k c : ℕ) :
+    let psi : Cfg n → C ℝ := fun σ => Wave.psiCplx am ph (fun j => bit (σ j))
+    let E : (Cfg n → ℝ) → ℝ := fun f => ∑ v₀, bornPure psi v₀ * (am.gibbsSteps k v₀).expect f
+    (∀ f, E f = ∑ σ, bornPure psi σ * f σ)
+    ∧ (E (fun σ => sigmaXApply (ImpState.pure psi) false σ) = (expectation psi (magnetOp pauliX)).re)
+    ∧ (E (fun σ => sigmaYApply (ImpState.pure psi) false σ) = (expectation psi (magnetOp pauliY)).re)
+    ∧ (0 < n → E (fun σ => sigmaZApply false σ) = (expectation psi (magnetOp pauliZ)).re)
+    ∧ (E (fun σ => neighbourPeriodicApply c σ) = (expectation psi (neighbourPeriodicOp c)).re)
+    ∧ (1 ≤ c → ∃ val : Cfg n → ℝ, (∀ σ, neighbourOpenApply c σ = .ok (val σ)) ∧
+        E val = (expectation psi (neighbourOpenOp c)).re) := by
+  intro psi E
+  have hE : ∀ f, E f = ∑ σ, bornPure psi σ * f σ := fun f =>
+    Prog.expect_stationary (bornPure psi) (am.gibbsSteps k)
+      (fun w => (C08_born_stationary am ph (⟨fun _ _ => 0, fun _ _ => 0, fun _ => 0, fun _ => 0, fun _ => 0⟩ :
+        PRBM ℝ n hid 0) k w).1) f
+  obtain ⟨h1, h2, h3, h4, h5⟩ := C08_pure_rbm am ph c
+  refine ⟨hE, (hE _).trans h1, (hE _).trans h2, fun hn => (hE _).trans (h3 hn), (hE _).trans h4, fun hc => ?_⟩
+  obtain ⟨val, hv, he⟩ := h5 hc
+  exact ⟨val, hv, (hE _).trans he⟩
+
+/-- … positive wavefunction. -/
+theorem C08_unbiased_stationary_pos (am : RBM ℝ n hid) (k c : ℕ) :
+    let psi : Cfg n → C ℝ := fun σ => Wave.psiPos am (fun j => bit (σ j))
+    let E : (Cfg n → ℝ) → ℝ := fun f => ∑ v₀, bornPure psi v₀ * (am.gibbsSteps k v₀).expect f
+    (∀ f, E f = ∑ σ, bornPure psi σ * f σ)
+    ∧ (E (fun σ => sigmaXApply (ImpState.pure psi) false σ) = (expectation psi (magnetOp pauliX)).re)
+    ∧ (E (fun σ => sigmaYApply (ImpState.pure psi) false σ) = (expectation psi (magnetOp pauliY)).re)
+    ∧ (0 < n → E (fun σ => sigmaZApply false σ) = (expectation psi (magnetOp pauliZ)).re)
+    ∧ (E (fun σ => neighbourPeriodicApply c σ) = (expectation psi (neighbourPeriodicOp c)).re)
+    ∧ (1 ≤ c → ∃ val : Cfg n → ℝ, (∀ σ, neighbourOpenApply c σ = .ok (val σ)) ∧
+        E val = (expectation psi (neighbourOpenOp c)).re) := by
+  intro psi E
+  have hE : ∀ f, E f = ∑ σ, bornPure psi σ * f σ := fun f =>
+    Prog.expect_stationary (bornPure psi) (am.gibbsSteps k)
+      (fun w => (C08_born_stationary am am (⟨fun _ _ => 0, fun _ _ => 0, fun _ => 0, fun _ => 0, fun _ => 0⟩ :
+        PRBM ℝ n hid 0) k w).2.1) f
+  obtain ⟨h1, h2, h3, h4, h5⟩ := C08_pure_rbm_pos am c
+  refine ⟨hE, (hE _).trans h1, (hE _).trans h2, fun hn => (hE _).trans (h3 hn), (hE _).trans h4, fun hc => ?_⟩
+  obtain ⟨val, hv, he⟩ := h5 hc
+  exact ⟨val, hv, (hE _).trans he⟩
+
+/-- … density matrix (purification RBM; the sampler is the three-block pass `h, a | v` then `v | h, a` of the amplitude
+network): expected value `Re tr(ρ̂ O)`, no hypotheses. -/
+theorem C08_unbiased_stationary_mixed (am ph : PRBM ℝ n hid a) (k c : ℕ) :
+    let S := ImpState.mixed (rbmRho am ph) (rbmProb am)
+    let R := normalised (dmMixed (rbmRho am ph))
+    let E : (Cfg n → ℝ) → ℝ := fun f => ∑ v₀, bornMixed (rbmProb am) v₀ * (am.gibbsSteps k v₀).expect f
+    (∀ f, E f = ∑ σ, bornMixed (rbmProb am) σ * f σ)
+    ∧ (E (fun σ => sigmaXApply S false σ) = (trOp R (magnetOp pauliX)).re)
+    ∧ (E (fun σ => sigmaYApply S false σ) = (trOp R (magnetOp pauliY)).re)
+    ∧ (0 < n → E (fun σ => sigmaZApply false σ) = (trOp R (magnetOp pauliZ)).re)
+    ∧ (E (fun σ => neighbourPeriodicApply c σ) = (trOp R (neighbourPeriodicOp c)).re)
+    ∧ (1 ≤ c → ∃ val : Cfg n → ℝ, (∀ σ, neighbourOpenApply c σ = .ok (val σ)) ∧
+        E val = (trOp R (neighbourOpenOp c)).re) := by
+  intro S R E
+  have hE : ∀ f, E f = ∑ σ, bornMixed (rbmProb am) σ * f σ := fun f =>
+    Prog.expect_stationary (bornMixed (rbmProb am)) (am.gibbsSteps k)
+      (fun w => (C08_born_stationary (⟨fun _ _ => 0, fun _ => 0, fun _ => 0⟩ : RBM ℝ n hid)
+        ⟨fun _ _ => 0, fun _ => 0, fun _ => 0⟩ am k w).2.2.1) f
+  obtain ⟨h1, h2, h3, h4, h5⟩ := C08_mixed_rbm am ph c
+  refine ⟨hE, (hE _).trans h1, (hE _).trans h2, fun hn => (hE _).trans (h3 hn), (hE _).trans h4, fun hc => ?_⟩
+  obtain ⟨val, hv, he⟩ := h5 hc
+  exact ⟨val, hv, (hE _).trans he⟩
+
+/-! #### (b) the mean reported by `statistics` -/
+
+/-- an observable evaluated on a batch of `B` chain states: one value per chain, in row order (for `SigmaX`/`SigmaY` this is what
+the heap runs return, `C08_no_mutation`; `SigmaZ`/`NeighbourInteraction` are row-wise by construction) -/
+def batchVals {B : ℕ} (f : Cfg n → ℝ) (st : Fin B → Cfg n) : List ℝ := List.ofFn (fun b => f (st b))
+
+theorem mean_batchVals {B : ℕ} (f : Cfg n → ℝ) (st : Fin B → Cfg n) :
+    C13.mean (batchVals f st) = (∑ b, f (st b)) / B := by
+  simp [C13.mean, batchVals, List.sum_ofFn]
+
+/-- **(b) generic.**  `B ≥ 1` independent chains whose single-chain `k`-step programs `stepK k` leave the probability
+distribution `p` invariant, batched as `stepKB k` (product law), every chain started from `p`: for every `num_samples ≥ 1`,
+`burn_in`, `steps`, with `T = ⌈num_samples / B⌉` draws — (i) on every execution `statistics` returns the one-pass statistics of the
+`T·B` values, the sampler having been called with `k = [burn_in, steps, …, steps]`, and (ii) the expectation of the reported MEAN
+over the joint law of all `T` draws of all `B` chains is the exact `p`-average of the per-sample value. -/
+theorem C08_statistics_mean_generic (p : Cfg n → ℝ) (hp : ∑ σ, p σ = 1)
+    (stepK : ℕ → Cfg n → Prog ℝ (Cfg n)) (B : ℕ)
+    (stepKB : ℕ → (Fin B → Cfg n) → Prog ℝ (Fin B → Cfg n))
+    (hlaw : ∀ k vs ws, (stepKB k vs).law ws = ∏ b, (stepK k (vs b)).law (ws b))
+    (hinv : ∀ k w, ∑ v, p v * (stepK k v).law w = p w)
+    (f : Cfg n → ℝ) (hB : 1 ≤ B) (ns nc burnIn steps T : ℕ) (hns : 1 ≤ ns) (hT : numTimeSteps ns B = .ok T)
+    (ow : Bool) (dflt : Fin B → Cfg n) :
+    (∀ (s₀ : Fin B → Cfg n) (sts : List (Fin B → Cfg n)), sts.length = T →
+        ∃ calls, obsStatistics (recEnv B sts dflt) (batchVals f) ⟨ns, nc, burnIn, steps, some s₀, ow⟩
+            = .ok (C13.onePass ((sts.map (batchVals f)).flatten), calls)
+          ∧ calls.map (·.k) = burnIn :: List.replicate (T - 1) steps)
+    ∧ ∑ vs₀ : Fin B → Cfg n, (∏ b, p (vs₀ b)) *
+          (drawsProg stepKB burnIn steps T 0 vs₀).expect (fun sts => C13.mean ((sts.map (batchVals f)).flatten))
+        = ∑ σ, p σ * f σ := by
+  have hinvB : ∀ k ws, ∑ vs : Fin B → Cfg n, (∏ b, p (vs b)) * (stepKB k vs).law ws = ∏ b, p (ws b) := by
+    intro k ws
+    simp only [hlaw]
+    exact prod_invariant p (fun v w => (stepK k v).law w) (hinv k) ws
+  obtain ⟨T', hT', _, _, hrec, hexp⟩ := C13.C13_mean_stationary stepKB (fun vs => ∏ b, p (vs b)) hinvB
+    (batchVals f) B hB (by intro st; simp [batchVals]) ns nc burnIn steps hns ow dflt
+  have hTT : T' = T := by rw [hT] at hT'; exact (Except.ok.inj hT').symm
+  subst hTT
+  refine ⟨hrec, hexp.trans ?_⟩
+  have hBR : (B : ℝ) ≠ 0 := by positivity
+  simp only [mean_batchVals, ← mul_div_assoc, Finset.mul_sum]
+  rw [← Finset.sum_div, Finset.sum_comm]
+  simp only [sum_prod_marginal1 p hp]
+  rw [Finset.sum_const, Finset.card_univ, Fintype.card_fin, nsmul_eq_mul]
+  field_simp
+
+/-- the batched sampler of the model is the product of the single-chain samplers (C05_batch_law) -/
+theorem gibbsStepsB_law (am : RBM ℝ n hid) (q : PRBM ℝ n hid a) {B : ℕ} (k : ℕ) (vs ws : Fin B → Cfg n) :
+    ((am.gibbsStepsB k vs).law ws = ∏ b, (am.gibbsSteps k (vs b)).law (ws b))
+    ∧ ((q.gibbsStepsB k vs).law ws = ∏ b, (q.gibbsSteps k (vs b)).law (ws b)) := by
+  simp only [C05.C05_batch_law, C05.C05_batch_law_purif, C05.C05_k_step_law, C05.C05_k_step_law_purif, and_self]
+
+/-- **(b) the mean reported by `ObservableBase.statistics` is unbiased, complex wavefunction**: `B ≥ 1` chains started i.i.d.
+from `p = |ψ|²/Σ|ψ|²` (the caller's `initial_state`), the loop's sampler calls being the model's batched block-Gibbs program
+`gibbsStepsB k` (C05) with `k = burn_in` once and `k = steps` afterwards, `T = ⌈num_samples/B⌉` draws: the expectation of the
+reported mean is the exact average for ANY per-sample function, and `⟨ψ|O|ψ⟩/⟨ψ|ψ⟩` for the five observables. -/
+theorem C08_unbiased_statistics (am ph : RBM ℝ n hid) (c B : ℕ) (hB : 1 ≤ B) (ns burnIn steps T : ℕ) (hns : 1 ≤ ns)
+    (hT : numTimeSteps ns B = .ok T) :
+    let psi : Cfg n → C ℝ := fun σ => Wave.psiCplx am ph (fun j => bit (σ j))
+    let E : (Cfg n → ℝ) → ℝ := fun f => ∑ vs₀ : Fin B → Cfg n, (∏ b, bornPure psi (vs₀ b)) *
+      (drawsProg (fun k => am.gibbsStepsB k) burnIn steps T 0 vs₀).expect
+        (fun sts => C13.mean ((sts.map (batchVals f)).flatten))
+    (∀ f, E f = ∑ σ, bornPure psi σ * f σ)
+    ∧ (E (fun σ => sigmaXApply (ImpState.pure psi) false σ) = (expectation psi (magnetOp pauliX)).re)
+    ∧ (E (fun σ => sigmaYApply (ImpState.pure psi) false σ) = (expectation psi (magnetOp pauliY)).re)
+    ∧ (0 < n → E (fun σ => sigmaZApply false σ) = (expectation psi (magnetOp pauliZ)).re)
+    ∧ (E (fun σ => neighbourPeriodicApply c σ) = (expectation psi (neighbourPeriodicOp c)).re)
+    ∧ (1 ≤ c → ∃ val : Cfg n → ℝ, (∀ σ, neighbourOpenApply c σ = .ok (val σ)) ∧
+        E val = (expectation psi (neighbourOpenOp c)).re) := by
+  intro psi E
+  have q0 : PRBM ℝ n hid 0 := ⟨fun _ _ => 0, fun _ _ => 0, fun _ => 0, fun _ => 0, fun _ => 0⟩
+  have hE : ∀ f, E f = ∑ σ, bornPure psi σ * f σ := fun f =>
+    (C08_statistics_mean_generic (bornPure psi) (C08_born_stationary am ph q0 0 (fun _ => false)).2.2.2.1
+      (fun k => am.gibbsSteps k) B (fun k => am.gibbsStepsB k) (fun k vs ws => (gibbsStepsB_law am q0 k vs ws).1)
+      (fun k w => (C08_born_stationary am ph q0 k w).1) f hB ns 0 burnIn steps T hns hT false (fun _ _ => false)).2
+  obtain ⟨h1, h2, h3, h4, h5⟩ := C08_pure_rbm am ph c
+  refine ⟨hE, (hE _).trans h1, (hE _).trans h2, fun hn => (hE _).trans (h3 hn), (hE _).trans h4, fun hc => ?_⟩
+  obtain ⟨val, hv, he⟩ := h5 hc
+  exact ⟨val, hv, (hE _).trans he⟩
+
+/-- … density matrix: the expectation of the mean reported by `statistics` is `Re tr(ρ̂ O)`. -/
+theorem C08_unbiased_statistics_mixed (am ph : PRBM ℝ n hid a) (c B : ℕ) (hB : 1 ≤ B) (ns burnIn steps T : ℕ)
+    (hns : 1 ≤ ns) (hT : numTimeSteps ns B = .ok T) :
+    let S := ImpState.mixed (rbmRho am ph) (rbmProb am)
+    let R := normalised (dmMixed (rbmRho am ph))
+    let E : (Cfg n → ℝ) → ℝ := fun f => ∑ vs₀ : Fin B → Cfg n, (∏ b, bornMixed (rbmProb am) (vs₀ b)) *
+      (drawsProg (fun k => am.gibbsStepsB k) burnIn steps T 0 vs₀).expect
+        (fun sts => C13.mean ((sts.map (batchVals f)).flatten))
+    (∀ f, E f = ∑ σ, bornMixed (rbmProb am) σ * f σ)
+    ∧ (E (fun σ => sigmaXApply S false σ) = (trOp R (magnetOp pauliX)).re)
+    ∧ (E (fun σ => sigmaYApply S false σ) = (trOp R (magnetOp pauliY)).re)
+    ∧ (0 < n → E (fun σ => sigmaZApply false σ) = (trOp R (magnetOp pauliZ)).re)
+    ∧ (E (fun σ => neighbourPeriodicApply c σ) = (trOp R (neighbourPeriodicOp c)).re)
+    ∧ (1 ≤ c → ∃ val : Cfg n → ℝ, (∀ σ, neighbourOpenApply c σ = .ok (val σ)) ∧
+        E val = (trOp R (neighbourOpenOp c)).re) := by
+  intro S R E
+  have r0 : RBM ℝ n hid := ⟨fun _ _ => 0, fun _ => 0, fun _ => 0⟩
+  have hE : ∀ f, E f = ∑ σ, bornMixed (rbmProb am) σ * f σ := fun f =>
+    (C08_statistics_mean_generic (bornMixed (rbmProb am)) (C08_born_stationary r0 r0 am 0 (fun _ => false)).2.2.2.2.2
+      (fun k => am.gibbsSteps k) B (fun k => am.gibbsStepsB k) (fun k vs ws => (gibbsStepsB_law r0 am k vs ws).2)
+      (fun k w => (C08_born_stationary r0 r0 am k w).2.2.1) f hB ns 0 burnIn steps T hns hT false (fun _ _ => false)).2
+  obtain ⟨h1, h2, h3, h4, h5⟩ := C08_mixed_rbm am ph c
+  refine ⟨hE, (hE _).trans h1, (hE _).trans h2, fun hn => (hE _).trans (h3 hn), (hE _).trans h4, fun hc => ?_⟩
+  obtain ⟨val, hv, he⟩ := h5 hc
+  exact ⟨val, hv, (hE _).trans he⟩
+
+/-- non-vacuity: a concrete complex RBM state on two sites (`h = 3 ≠ n`, biases of both signs), 3 chains, 7 requested samples
+(= 3 draws), burn-in 5, 2 steps between draws: the expectation of the reported `SigmaY` mean is `⟨Y⟩`. -/
+example : let am : RBM ℝ 2 3 := ⟨fun i j => (i.val : ℝ) - j.val + 0.5, fun j => if j = 0 then -1.5 else 2,
+      fun i => if i = 0 then 0.7 else -0.3⟩
+    let ph : RBM ℝ 2 3 := ⟨fun i j => 0.25 * (i.val : ℝ) + j.val, fun j => if j = 0 then 1 else -2,
+      fun i => if i = 0 then -0.4 else 0.9⟩
+    let psi : Cfg 2 → C ℝ := fun σ => Wave.psiCplx am ph (fun j => bit (σ j))
+    ∑ vs₀ : Fin 3 → Cfg 2, (∏ b, bornPure psi (vs₀ b)) *
+      (drawsProg (fun k => am.gibbsStepsB k) 5 2 3 0 vs₀).expect
+        (fun sts => C13.mean ((sts.map (batchVals (fun σ => sigmaYApply (ImpState.pure psi) false σ))).flatten))
+      = (expectation psi (magnetOp pauliY)).re :=
+  (C08_unbiased_statistics _ _ 1 3 (by norm_num) 7 5 2 3 (by norm_num) (by decide)).2.2.1
+
+/-- non-vacuity of (a): the same state, 4 Gibbs passes from a stationary start, `SigmaX`. -/
+example : let am : RBM ℝ 2 3 := ⟨fun i j => (i.val : ℝ) - j.val + 0.5, fun j => if j = 0 then -1.5 else 2,
+      fun i => if i = 0 then 0.7 else -0.3⟩
+    let ph : RBM ℝ 2 3 := ⟨fun i j => 0.25 * (i.val : ℝ) + j.val, fun j => if j = 0 then 1 else -2,
+      fun i => if i = 0 then -0.4 else 0.9⟩
+    let psi : Cfg 2 → C ℝ := fun σ => Wave.psiCplx am ph (fun j => bit (σ j))
+    ∑ v₀, bornPure psi v₀ * (am.gibbsSteps 4 v₀).expect (fun σ => sigmaXApply (ImpState.pure psi) false σ)
+      = (expectation psi (magnetOp pauliX)).re :=
+  (C08_unbiased_stationary _ _ 4 1).2.1
+
+end sampler
 
 /-! ### Constructor flags as the objects the caller passed -/
 
